@@ -39,6 +39,7 @@ type Pkg struct {
 	Types  *types.Package
 	Info   *types.Info
 	Origin string // for S3: mutator description
+	Focus  string // when set, only this file is analysed (the other files are context)
 }
 
 var Sizes = types.SizesFor("gc", runtime.GOARCH)
@@ -219,7 +220,7 @@ func LoadS2() ([]*Pkg, []string, error) {
 		if len(srcs) == 0 {
 			continue
 		}
-		p, err := TypeCheck("S2", "S2/"+e.Name(), srcs)
+		p, err := TypeCheck("S2", "S2/"+e.Name(), filepath.Join(dir, e.Name()), srcs)
 		if err != nil {
 			skipped = append(skipped, fmt.Sprintf("S2/%s: %v", e.Name(), err))
 			continue
@@ -231,8 +232,19 @@ func LoadS2() ([]*Pkg, []string, error) {
 
 // TypeCheck parses and type-checks a package given as name -> source; an error means the
 // package is not a legal input for the properties (it is then discarded by the callers).
-func TypeCheck(stream, name string, srcs map[string][]byte) (*Pkg, error) {
+//
+// The rule engine re-reads analysed files from disk by file name (ruleguard nodeText), so every file is
+// materialised: dir is the directory holding the files ("" = a fresh scratch directory is written).
+func TypeCheck(stream, name, dir string, srcs map[string][]byte) (*Pkg, error) {
 	fset := Fset
+	if dir == "" {
+		dir = scratchDir()
+		for n, b := range srcs {
+			if err := os.WriteFile(filepath.Join(dir, n), b, 0o644); err != nil {
+				return nil, err
+			}
+		}
+	}
 	names := make([]string, 0, len(srcs))
 	for n := range srcs {
 		names = append(names, n)
@@ -241,7 +253,7 @@ func TypeCheck(stream, name string, srcs map[string][]byte) (*Pkg, error) {
 	pk := &Pkg{Stream: stream, Name: name, Fset: fset, Info: newInfo()}
 	var asts []*ast.File
 	for _, n := range names {
-		f, err := parser.ParseFile(fset, n, srcs[n], parser.ParseComments)
+		f, err := parser.ParseFile(fset, filepath.Join(dir, n), srcs[n], parser.ParseComments)
 		if err != nil {
 			return nil, err
 		}
@@ -265,6 +277,28 @@ func TypeCheck(stream, name string, srcs map[string][]byte) (*Pkg, error) {
 	pk.Types = tp
 	return pk, nil
 }
+
+var (
+	scratchMu sync.Mutex
+	scratchN  int
+)
+
+// ScratchRoot holds materialised mutants and shrink candidates; removed by CleanScratch.
+func ScratchRoot() string {
+	return filepath.Join(VerifRoot(), "work", "crashrun", fmt.Sprintf("scratch-%d", os.Getpid()))
+}
+
+func scratchDir() string {
+	scratchMu.Lock()
+	scratchN++
+	n := scratchN
+	scratchMu.Unlock()
+	d := filepath.Join(ScratchRoot(), fmt.Sprintf("%05d", n))
+	common.Must(os.MkdirAll(d, 0o755))
+	return d
+}
+
+func CleanScratch() { os.RemoveAll(ScratchRoot()) }
 
 // Sources returns the package's files as a name -> source map (copy).
 func (p *Pkg) Sources() map[string][]byte {
